@@ -475,3 +475,19 @@ V('C13', 'wif-compression-marker-without-length-test', WALLET, "CKey.__init__(se
 V('C14', 'recover-compact-header-before-length-test', KEY, "        if len(sig) != 65:\n            raise ValueError(\"Signature should be 65 characters, not [%d]\" % (len(sig), ))\n\n        recid = (sig[0] - 27) & 3",
   "        recid = (sig[0] - 27) & 3\n        if len(sig) != 65:\n            raise ValueError(\"Signature should be 65 characters, not [%d]\" % (len(sig), ))\n", 'C14.I2', scope='CPubKey.recover_compact')
 V('C08', 'benign-unspendable-length-alias', SCRIPT, "        return (len(self) > 0 and\n                self[0] == OP_RETURN)", "        size = len(self)\n        return (size > 0 and\n                self[0] == OP_RETURN)", 'SILENT', scope='CScript.is_unspendable')
+
+# ------------------------------------------------------------------------------------------------ RESTORE twins (round-4 kinds): spelling only, the rules must stay silent
+V('C01', 'benign-else-after-return-removed', CORE, "            return cls(vin, vout, nLockTime, nVersion, wit)\n        else:\n            f.seek(pos) # put marker byte back, since we don't have peek\n            vin = VectorSerializer.stream_deserialize(CTxIn, f)\n            vout = VectorSerializer.stream_deserialize(CTxOut, f)\n            nLockTime = struct.unpack(b\"<I\", ser_read(f,4))[0]\n            return cls(vin, vout, nLockTime, nVersion)",
+  "            return cls(vin, vout, nLockTime, nVersion, wit)\n        f.seek(pos) # put marker byte back, since we don't have peek\n        vin = VectorSerializer.stream_deserialize(CTxIn, f)\n        vout = VectorSerializer.stream_deserialize(CTxOut, f)\n        nLockTime = struct.unpack(b\"<I\", ser_read(f,4))[0]\n        return cls(vin, vout, nLockTime, nVersion)", 'SILENT', scope='CTransaction.stream_deserialize')
+V('C01', 'benign-compactsize-thresholds-as-shifts', SER, "elif i <= 0xffff:", "elif i <= (1 << 16) - 1:", 'SILENT', scope='VarIntSerializer.stream_serialize')
+V('C01', 'benign-short-read-guard-negated', SER, "    if len(r) < n:\n        raise SerializationTruncationError", "    if not len(r) >= n:\n        raise SerializationTruncationError", 'SILENT', scope='ser_read')
+V('C01', 'benign-vector-reader-zero-trip-guard', SER, "        n = VarIntSerializer.stream_deserialize(f)\n        r = []\n        for i in range(n):\n            r.append(inner_cls.stream_deserialize(f, **inner_params))",
+  "        n = VarIntSerializer.stream_deserialize(f)\n        if n == 0:\n            return []\n        r = []\n        for i in range(n):\n            r.append(inner_cls.stream_deserialize(f, **inner_params))", 'SILENT', scope='VectorSerializer.stream_deserialize')
+V('C11', 'benign-decode-called-by-keyword', B32, "witver, data = decode(bitcoin.params.BECH32_HRP, s)", "witver, data = decode(hrp=bitcoin.params.BECH32_HRP, addr=s)", 'SILENT', scope='CBech32Data.__new__')
+V('C06', 'benign-pick-roll-bound-chained', EVAL, "if n < 0 or n >= len(stack):", "if not (0 <= n < len(stack)):", 'SILENT', scope='_EvalScript')
+V('C07', 'benign-altstack-emptiness-by-truth', EVAL, "if len(altstack) < 1:", "if not altstack:", 'SILENT', scope='_EvalScript')
+V('C18', 'benign-caddress-nested-ifs', NET, "        if c.protover >= CADDR_TIME_VERSION and not without_time:\n            c.nTime = struct.unpack(b\"<I\", ser_read(f, 4))[0]",
+  "        if c.protover >= CADDR_TIME_VERSION:\n            if not without_time:\n                c.nTime = struct.unpack(b\"<I\", ser_read(f, 4))[0]", 'SILENT', scope='CAddress.stream_deserialize')
+V('C15', 'benign-merkle-index-conditional', CORE, "i2 = min(i+1, size-1)", "i2 = i+1 if i+1 < size else size-1", 'SILENT', scope='CBlock.build_merkle_tree_from_txids')
+V('C10', 'benign-encode-remainder-quotient', B58, "n, r = divmod(n, 58)", "r = n % 58\n        n = n // 58", 'SILENT', scope='encode')
+V('C12', 'template-order-of-tests-with-index-first', WALLET, "            if (len(scriptPubKey) == 35 # compressed\n                  and scriptPubKey[0]  == 0x21", "            if (scriptPubKey[0]  == 0x21\n                  and len(scriptPubKey) == 35 # compressed", 'C12.I2', scope='P2PKHBitcoinAddress.from_scriptPubKey')
